@@ -55,12 +55,14 @@ def build(c):
 
 def cli_part(ctx, out):
     """the real command-line program (cmd/arcaflow/main.go built with the scripted deployer): for every CLI case of
-    FileCache.tla the exit code, and for successful runs the printed output id and data"""
+    FileCache.tla the exit code, what appears on the standard output (the result with the id and data of direct execution,
+    the namespace table, the version, or nothing), whether the step was executed at all, and that every plugin the
+    program deployed was closed again before it ended"""
     cases = []
     for m in re.finditer(r'<<"CLI", "(.*)">>', out):
         cases.append(json.loads(m.group(1).encode().decode('unicode_escape')))
-    if len(cases) != 72:
-        ctx.inconclusive('FileCache.tla exported %d CLI cases, expected 72' % len(cases))
+    if len(cases) != 180:
+        ctx.inconclusive('FileCache.tla exported %d CLI cases, expected 180' % len(cases))
         return
     rng = random.Random(ctx.seed * 131 + 7)
     if ctx.quick:
@@ -80,35 +82,68 @@ def cli_part(ctx, out):
     n = 0
     for k, cc in enumerate(cases):
         c = cc['c']
+        fault = c['fault']
         base = os.path.join(ctx.work, 'cli%03d' % k, 'parent', 'ctx')
         os.makedirs(base)
         conf = {'depth': 1, 'layout': 'rr', 'shared': False, 'out': c['out'], 'explicit': c['explicit'], '_l2': 'l2.yaml', '_l3': 'l3.yaml'}
         files, wf, script = build(conf)
-        if c['fault'] == 'run-fails':
+        if fault == 'run-fails':
             script['a']['exec'] = {'out': 'success', 'crash': True}
         for name, w in files.items():
             open(os.path.join(base, name), 'w').write(vlib.render_workflow(w))
-        if c['fault'] == 'invalid-workflow':
+        if fault == 'invalid-workflow':
             open(os.path.join(base, 'workflow.yaml'), 'w').write('version: v0.2.0\nsteps: {a: [not, a, step]}\noutputs: {}\n')
         open(os.path.join(base, 'config.yaml'), 'w').write(vlib.CLI_CONFIG)
-        wfarg = 'nosuch.yaml' if c['fault'] == 'missing-workflow' else 'workflow.yaml'
+        open(os.path.join(base, 'badconfig.yaml'), 'w').write(vlib.CLI_CONFIG + 'no_such_section: {a: 1}\n')
+        open(os.path.join(base, 'input.yaml'), 'w').write('x: fromfile\n')
+        open(os.path.join(base, 'badinput.yaml'), 'w').write('no_such_input_field: 1\n')
+        wfarg = 'nosuch.yaml' if fault == 'missing-workflow' else 'workflow.yaml'
+        cfgarg = {'missing-config': 'nosuchconfig.yaml', 'invalid-config': 'badconfig.yaml'}.get(fault, 'config.yaml')
         cwd = base if c['dir'] == 'abs' else os.path.dirname(base)
         dirarg = base if c['dir'] == 'abs' else 'ctx'
-        code, so, se, secs = vlib.run_cli(cli, base, script, ['-context', dirarg, '-workflow', wfarg, '-config', 'config.yaml'], cwd=cwd)
+        args = ['-context', dirarg, '-workflow', wfarg, '-config', cfgarg]
+        if fault == 'missing-input':
+            args += ['-input', 'nosuchinput.yaml']
+        elif fault == 'invalid-input':
+            args += ['-input', 'badinput.yaml']
+        elif fault == 'none' and k % 2 == 0:
+            args += ['-input', 'input.yaml']
+        if fault == 'get-namespaces':
+            args += ['-get-namespaces']
+        if fault == 'version':
+            args = ['-version'] + (args if k % 2 == 0 else ['-context', dirarg, '-workflow', 'nosuch.yaml'])
+        ledger = os.path.join(ctx.work, 'cli%03d' % k, 'ledger.txt')
+        code, so, se, secs = vlib.run_cli(cli, base, script, args, cwd=cwd, ledger=ledger)
         n += 1
-        tag = 'cli fault=%s out=%s explicit=%s dir=%s' % (c['fault'], c['out'], c['explicit'], c['dir'])
-        rp = {'kind': 'cli-scenario', 'how': 'verifcli -context <dir> -workflow %s -config config.yaml (VERIF_CLI_SCRIPT=%s)' % (wfarg, json.dumps(script)), 'case': c}
+        tag = 'cli fault=%s out=%s explicit=%s dir=%s' % (fault, c['out'], c['explicit'], c['dir'])
+        rp = {'kind': 'cli-scenario', 'how': 'verifcli %s (VERIF_CLI_SCRIPT=%s)' % (' '.join(args), json.dumps(script)), 'case': c}
         if 'panic:' in se and 'go.flow.arcalot.io/engine' in se:
             ctx.add('C20', 'process-crashed', tag + ': ' + engine_check.first_panic_line(se), rp)
             continue
         if code != cc['exit']:
             ctx.add('C20', 'cli-exit-code-differs-from-specification', '%s: exit %s want %s' % (tag, code, cc['exit']), rp)
-        if cc['prints']:
+        has_result = re.search(r'^output_id: ', so, re.M) is not None
+        if cc['stdout'] == 'result':
             m = re.search(r'^output_id: (\S+)', so, re.M)
             if not m or m.group(1).strip('"') != cc['id']:
                 ctx.add('C20', 'cli-prints-another-output-than-direct-execution', '%s: printed %r' % (tag, (m.group(1) if m else so[:80])), rp)
             elif 'a/%s' % {'success': 'success', 'error': 'error', 'other': 'alt'}[c['out']] not in so:
                 ctx.add('C20', 'cli-prints-other-data-than-direct-execution', '%s: %s' % (tag, so[:120].replace('\n', ' ')), rp)
+        elif has_result:
+            ctx.add('C20', 'cli-prints-a-result-although-none-was-produced', '%s: %s' % (tag, so[:120].replace('\n', ' ')), rp)
+        elif cc['stdout'] == 'namespaces' and not ('object' in so.lower() and 'namespace' in so.lower()):
+            ctx.add('C20', 'cli-namespace-listing-missing', '%s: %s' % (tag, so[:120].replace('\n', ' ')), rp)
+        elif cc['stdout'] == 'version' and 'Arcaflow Engine' not in so:
+            ctx.add('C20', 'cli-version-missing', '%s: %s' % (tag, so[:120].replace('\n', ' ')), rp)
+        elif cc['stdout'] == 'nothing' and so.strip():
+            ctx.add('C20', 'cli-prints-on-stdout-although-it-failed-before-any-result', '%s: %s' % (tag, so[:120].replace('\n', ' ')), rp)
+        dep, clo, ex = vlib.read_ledger(ledger)
+        if ex > 0 and not cc['executes']:
+            ctx.add('C20', 'cli-executed-a-step-in-a-mode-that-runs-nothing', '%s: %d executions' % (tag, ex), rp)
+        if cc['executes'] and ex != 1:
+            ctx.add('C20', 'cli-did-not-execute-the-step-exactly-once', '%s: %d executions' % (tag, ex), rp)
+        if code != 124 and dep - clo:
+            ctx.add('C05', 'plugin-still-deployed-when-the-program-ended', '%s: %d of %d deployments never closed' % (tag, len(dep - clo), len(dep)), rp)
     ctx.cov(cli_cases=n)
 
 
